@@ -175,7 +175,9 @@ def _warm_up():
         for y in scales:
             if x is y:
                 continue
-            for src, dst in ((joule / x, joule / y), (x * second, y * second), (joule / (meter * x), joule / (meter * y)), (x**2, y**2)):
+            # (one conversion with the scale in a denominator per ordered pair: an even number of
+            # them could undo whatever the first one left behind)
+            for src, dst in ((joule / x, joule / y), (x * second, y * second), (x**2, y**2)):
                 WARM_UP["attempted"] += 1
                 try:
                     (3 * src).in_unit(dst)
